@@ -63,7 +63,16 @@ def gen_trajectory(rng, cubic):
             x.append(row)
         segs.append((start, len(x)))
         if s < nseg - 1:
-            x.append([None] * D)
+            # a separator is a row with a NaN in ANY column (often the time column is kept and only the signal is NaN)
+            if D == 1 or rng.random() < 0.5:
+                sep = [None] * D
+            else:
+                holes = set(rng.sample(range(D), rng.randrange(1, D)))
+                if rng.random() < 0.6:
+                    holes.discard(0)
+                    holes = holes or {rng.randrange(1, D)}
+                sep = [None if j in holes else Fraction(rng.randrange(-40, 41), 1) for j in range(D)]
+            x.append(sep)
             truth.append(None)
     return x, segs, truth, D
 
